@@ -18,7 +18,7 @@ NOT_APPLICABLE = {}
 
 # property checks that are finished (quiet on 5 seeds, mutants killed,
 # reviewed); everything else is listed as not claimed yet
-READY = ["C05", "C07", "C12"]
+READY = ["C04", "C05", "C07", "C12", "C18"]
 
 
 def main():
